@@ -15,7 +15,7 @@ Import ListNotations.
 (* static_cast<std::uint16_t>(g.sym->opcode()) *)
 Definition opc16 (s : sym) : N := Z.to_N (s_opcode s mod 65536).
 (* the object representation of g.par (a double) *)
-Definition par_bits (p : f64) : N := Z.to_N (F64.to_bits p).
+Definition par_bits (p : f64) : N := Z.to_N (F64.to_bits p mod 18446744073709551616).
 
 Definition is_some {A} (o : option A) : bool := match o with Some _ => true | None => false end.
 
@@ -348,8 +348,9 @@ Fixpoint all_some {A} (l : list (option A)) : option (list A) :=
   | [] => Some []
   | o :: r => match o, all_some r with Some a, Some b => Some (a :: b) | _, _ => None end
   end.
+Definition member_hash (m : mep) : option hash := hash_mep (content m).
 Definition hash_team (ms : list mep) : option hash :=
-  option_map (fold_combine hzero) (all_some (map (fun m => hash_mep (content m)) ms)).
+  option_map (fold_combine hzero) (all_some (map member_hash ms)).
 
 Definition team_signature (t : team) : option (hash * team) :=
   if hempty (cache t) then
